@@ -13,6 +13,25 @@ import (
 	"golang.org/x/tools/go/ssa"
 )
 
+// hashArg abstracts decimal renderings inside a hash pre-image by an uninterpreted function: the hash is
+// uninterpreted anyway, only equality of pre-images matters, and str.from_int under a UF stalls the string
+// solvers. (Equal numbers still give equal pre-images; distinct numbers may collide - an over-approximation.)
+func (m *Machine) hashArg(t *Term) *Term {
+	switch t.op {
+	case "str.++":
+		ps := make([]*Term, len(t.args))
+		for i, a := range t.args {
+			ps[i] = m.hashArg(a)
+		}
+		return m.in.Concat(ps...)
+	case "ite":
+		return m.in.Ite(t.args[0], m.hashArg(t.args[1]), m.hashArg(t.args[2]))
+	case "str.from_int":
+		return m.in.UF("itoa", SString, t.args[0])
+	}
+	return t
+}
+
 func (m *Machine) ufBytes(name string, args ...*Term) *BytesVal {
 	return &BytesVal{segs: []Seg{{k: SegUF, t: m.in.UF(name, SString, args...)}}}
 }
@@ -55,6 +74,12 @@ func init() {
 		iv := a[0].(*IfaceVal)
 		mv, ok := iv.v.(*MapVal)
 		if !ok {
+			if m.initMode > 0 {
+				return m.zeroResults(fn) // package initialisers: same policy as any call across the intrinsic boundary
+			}
+			if st, isStr := iv.v.(*Term); isStr && st.sort == SString {
+				return TupleVal{m.toBytes(m.in.Concat(m.in.Str("\""), m.in.UF("jsonesc", SString, st), m.in.Str("\""))), nilIface}
+			}
 			m.unsupported("json.Marshal of %T at %s", iv.v, m.repoSite())
 		}
 		var ks, vs []*Term
@@ -71,7 +96,7 @@ func init() {
 		return TupleVal{m.toBytes(m.jsonObject(ks, vs)), nilIface}
 	})
 	reg("github.com/tendermint/tendermint/crypto.Sha256", func(m *Machine, fn *ssa.Function, a []Value) Value {
-		return m.ufBytes("sha256", m.bytesToStr(m.toBytes(a[0])))
+		return m.ufBytes("sha256", m.hashArg(m.bytesToStr(m.toBytes(a[0]))))
 	})
 	reg("encoding/hex.EncodeToString", func(m *Machine, fn *ssa.Function, a []Value) Value {
 		return m.in.UF("hexenc", SString, m.bytesToStr(m.toBytes(a[0])))
@@ -111,6 +136,7 @@ func init() {
 				m.in.Eq(s, m.in.Concat(p1, col, p2, col, p3)),
 				m.in.Not(m.in.StrContains(p1, col)), m.in.Not(m.in.StrContains(p2, col)), m.in.Not(m.in.StrContains(p3, col)),
 				m.in.Ge(m.in.StrLen(p1), m.in.I64(3)), m.in.Ge(m.in.StrLen(p2), m.in.I64(1)), m.in.Ge(m.in.StrLen(p3), m.in.I64(1)))))
+			m.splitMemo = append(m.splitMemo, splitMemo{s: s, sep: col, guard: ok, parts: []*Term{p1, p2, p3}})
 		}
 		return TupleVal{ok, nilIface}
 	})
